@@ -87,9 +87,18 @@ func isPublicExpected(sym string, private map[string]bool, publicDotted map[stri
 	return !private[sym]
 }
 
-func buildC20Store(private map[string]bool, publicDotted map[string]bool) *schema.St {
-	sc := schema.Build(qx.DefsPrivate(private))
+// buildC20Store builds the things store with the given symbols non-public, or (viaChild) a child store layered on it
+// that is granted the parent's symbols (scalars, sets, the map symbol) and their visibility.
+func buildC20Store(private map[string]bool, publicDotted map[string]bool, viaChild bool) *schema.St {
+	defs := qx.DefsPrivate(private)
+	if viaChild {
+		defs = append(defs, &schema.StoreDef{Type: qx.Things, Parent: qx.Things, ChildPath: []string{"kid"}, Fields: []schema.Field{{Name: "extra", Kind: schema.KStr}}})
+	}
+	sc := schema.Build(defs)
 	st := sc.St(qx.Things)
+	if viaChild {
+		st = sc.St(qx.Things + "/kid")
+	}
 	for d := range publicDotted {
 		st.Store.MakeSymbolPublic(d)
 	}
@@ -132,7 +141,7 @@ func init() {
 		Level: "exploration",
 		Rule: "typed queries from the C01 generator (every operator, set functions, dotted and map-element symbols, null tests, count / isEmpty incl. sub-queries with a constant inner predicate) plus 0-3 sort fields; the referenced symbol set R is known from the generator structure. " +
 			"For each query: a store with every symbol public must accept; for every r in R that can be non-public a fresh store where exactly r is non-public (registered through AddSetSymbol / AddEntitySymbol / an un-published map / an un-published dotted symbol) must reject with an error naming r; " +
-			"random assignments must reject iff R meets the non-public set and name a referenced non-public symbol. Map elements follow their map. A reflection walk over the typed tree (not using Accept) lists the node kinds produced; the run is inconclusive unless every typed node kind occurred. " +
+			"random assignments must reject iff R meets the non-public set and name a referenced non-public symbol. Every third query is validated against a child store that was granted the parent's symbols and their visibility (GrantSymbols) instead of the store itself. Map elements follow their map. A reflection walk over the typed tree (not using Accept) lists the node kinds produced; the run is inconclusive unless every typed node kind occurred. " +
 			"non-trivial = distinct (query, assignment) pairs with at least two referenced symbols",
 		Assumptions: []string{"for sub-queries only the set symbol is judged (which store the inner symbols must be public for is not stated)", "id, the path-prefixed field and the fk field can only be registered public through the public API"},
 		Plan: func(tier core.Tier, seed int64) int {
@@ -146,7 +155,7 @@ func init() {
 			return map[string][]string{"node_kind": c20NodeKinds, "position": {"sort-field", "set-function", "in-subject", "between-subject", "contains-subject", "null-test", "subquery-set", "map-element", "dotted", "nested-depth-3"}}
 		},
 		MinCounters: func(core.Tier) map[string]int64 {
-			return map[string]int64{"single_private_rejections": 1500, "all_public_accepts": 1000}
+			return map[string]int64{"single_private_rejections": 1500, "all_public_accepts": 1000, "validated_through_child_store": 300}
 		},
 	})
 }
@@ -155,8 +164,13 @@ func runC20(c *core.Ctx, idx int) {
 	r := c.Rand()
 	w := qx.GenWorld(r, 3, true)
 	g := &qx.Gen{R: r, W: w, Store: qx.Things}
-	allPublic := buildC20Store(nil, nil)
+	allPublic := buildC20Store(nil, nil, false)
+	allPublicChild := buildC20Store(nil, nil, true)
 	for k := 0; k < 12; k++ {
+		viaChild := k%3 == 2 // every third query is validated against a child store granted the parent's symbols
+		if viaChild {
+			c.Count("validated_through_child_store", 1)
+		}
 		depth := r.Intn(4)
 		e := stripSubQueries(g.Expr(depth))
 		q := &qx.Query{Pred: e}
@@ -185,7 +199,7 @@ func runC20(c *core.Ctx, idx int) {
 		info := map[string]any{"query": text, "referenced": rs}
 		validate := func(private map[string]bool, publicDotted map[string]bool, st *schema.St) (error, bool) {
 			if st == nil {
-				st = buildC20Store(private, publicDotted)
+				st = buildC20Store(private, publicDotted, viaChild)
 			}
 			pq, err := ast.Parse(st.Store, text)
 			if err != nil {
@@ -208,6 +222,9 @@ func runC20(c *core.Ctx, idx int) {
 		var stAll *schema.St
 		if len(dotted) == 0 {
 			stAll = allPublic
+			if viaChild {
+				stAll = allPublicChild
+			}
 		}
 		if err, ok := validate(nil, allDotted, stAll); ok {
 			c.Count("all_public_accepts", 1)
